@@ -38,7 +38,7 @@ pub(super) fn spawn_with_capture(t: &mut VmGreenThread, cap: Value) -> Box<VmGre
     nt
 }
 pub(super) fn spawn_prog() -> Vec<Instr> {
-    vec![Instr::SpawnTask(1, ProgramCounter(9)), Instr::Stop]
+    vec![norm(Instr::SpawnTask(1, ProgramCounter(9))), Instr::Stop]
 }
 
 vm_harness! {
@@ -178,7 +178,7 @@ vm_harness! {
 
 // -------------------------------------------------------------------- C09
 pub(super) fn chan_prog() -> Vec<Instr> {
-    vec![Instr::ChannelWrite, Instr::ChannelRead, Instr::Stop]
+    vec![norm(Instr::ChannelWrite), norm(Instr::ChannelRead), Instr::Stop]
 }
 pub(super) fn chan_ref<'a>(v: Value) -> &'a ChannelObject {
     unsafe { &*(v.0 as *const ChannelObject) }
